@@ -337,6 +337,21 @@ func evalC15Pair(a, b []byte) (vs []*Violation, res [64]bool) {
 		if !reflect.DeepEqual(r2, ub) {
 			add("URIParseCmp", "handed-back-uris", "r2", fmt.Sprintf("r2=%+v want %+v", r2, ub))
 		}
+		// only one of the two result structures supplied
+		var s1, s2 sipsp.PsipURI
+		sipsp.ParseURI([]byte("sips:x:y@z:9;p=1?h=2"), &s1)
+		s2 = s1
+		ok3, e3, _ := sipsp.URIParseCmp(a, b, fl, &s1, nil)
+		ok4, e4, _ := sipsp.URIParseCmp(a, b, fl, nil, &s2)
+		if ok3 != res[f] || e3 != 0 || ok4 != res[f] || e4 != 0 {
+			add("URIParseCmp", "entry-points-agree", "result/one-result-structure", fmt.Sprintf("flags %#x: URICmp=%v, with r1 only %v,%v, with r2 only %v,%v", f, res[f], ok3, e3, ok4, e4))
+		}
+		if !reflect.DeepEqual(s1, ua) {
+			add("URIParseCmp", "handed-back-uris", "r1-only", fmt.Sprintf("r1=%+v want %+v", s1, ua))
+		}
+		if !reflect.DeepEqual(s2, ub) {
+			add("URIParseCmp", "handed-back-uris", "r2-only", fmt.Sprintf("r2=%+v want %+v", s2, ub))
+		}
 	}
 	// parameter / header list comparisons are symmetric
 	pa, pb := ua.Params.Get(a), ub.Params.Get(b)
